@@ -237,9 +237,11 @@ PROPS = {
                  'VM wrappers (verbatim methods of lib.rs): what each VM kind hands to the interpreter / compiled code; fixed-metadata VM writes &packet[0] and one-past-the-end at the configured offsets before every execution (interpreter and Cranelift), passes the offsets to the JIT prologue - offsets <= 120 (BOUNDED)'),
             Part('jit', lambda h: h.startswith('prologue_'), lambda h, c, info=None: 'ensures:' in desc(c) and 'rsp modulo 16' not in desc(c) or (in_file(c, 'src/jit.rs') and kani.is_panic_check(c)),
                  'JIT prologue for the three (use_mbuff, update_data_ptr) modes against the x86 semantics: r1, r10, 512-byte stack, stores of mem / mem+len at mbuff+offsets'),
+            Part('clif', lambda h: h == 'clif_prelude', lambda h, c, info=None: 'ensures:' in desc(c) or (in_file(c, 'src/cranelift.rs') and kani.is_panic_check(c)),
+                 'Cranelift function prelude (build_function_prelude, verbatim): r1 = mbuff | mem | 0 from the four ABI parameters, r10 = top of a 512-byte stack slot, instruction 0 reached without memory access'),
         ],
-        level_text='Proof of the interpreter prologue, of every VM wrapper method and of the JIT prologue; the fixed-metadata buffer is exercised with offsets <= 120 (bounded, labelled); Cranelift prelude: unit cranelift (not yet claimed here).',
-        assumptions=['FixedMbuff offsets bounded by 120 (real Vec<u8> allocation under CBMC)', 'Cranelift prelude (r1 selection, stack slot) is not covered'],
+        level_text='Proof of the interpreter prologue, of every VM wrapper method, of the JIT prologue and of the Cranelift function prelude; the fixed-metadata buffer is exercised with offsets <= 120 (bounded, labelled).',
+        assumptions=['FixedMbuff offsets bounded by 120 (real Vec<u8> allocation under CBMC)', 'Cranelift: the stack slot semantics (stack_addr of a 512-byte ExplicitSlot) is that of the stub crates'],
     ),
     'C10': dict(
         title='Loading, verifying and compiling stay consistent over any history of API calls',
@@ -403,8 +405,13 @@ def check(pid, tier, seed, use_cache, jobs, t0):
         groups = {}
         for o in failed:
             groups.setdefault((o['unit'], o['harness']), []).append(o)
+        n_replayed = 0
         for (unit_name, h), obs in groups.items():
-            path = write_replay(pid, unit_name, h, obs)
+            # counterexample extraction re-runs the harness (concrete playback): at most 3 per check; the other
+            # violations are still reported, with the failed obligations and the verifier output in their replay file
+            path = write_replay(pid, unit_name, h, obs, extract=n_replayed < 3)
+            if U.UNITS[unit_name].get('witness'):
+                n_replayed += 1
             violations.append((path, unit_name, h, obs))
     wall = time.time() - t0
     discharged = sum(1 for o in obligations if o['status'] == 'ok')
@@ -458,7 +465,7 @@ def replay_has_input(path):
         return False
 
 
-def write_replay(pid, unit_name, h, obs):
+def write_replay(pid, unit_name, h, obs, extract=True):
     d = os.path.join(WORK, 'replay')
     os.makedirs(d, exist_ok=True)
     path = os.path.join(d, '%s_%s_%s.json' % (pid, unit_name, h))
@@ -467,7 +474,9 @@ def write_replay(pid, unit_name, h, obs):
                verifier_output=obs[0].get('output', ''),
                witness=None, reproduced_on_real_code=False, replay_transcript=None)
     unit = U.UNITS[unit_name]
-    if unit.get('witness'):
+    if unit.get('witness') and not extract:
+        rec['replay_transcript'] = 'counterexample not extracted: three other violations of this run already carry one'
+    elif unit.get('witness'):
         try:
             w = unit['witness'](h, obs)
             rec.update(w)
@@ -482,7 +491,7 @@ def replay(pid, path):
     with open(path) as f:
         rec = json.load(f)
     print(json.dumps({k: v for k, v in rec.items() if k != 'verifier_output'}, indent=1)[:6000])
-    if rec.get('witness') and rec.get('unit') == 'interp':
+    if rec.get('witness') and rec.get('unit') in ('interp', 'jit', 'clif'):
         import tempfile
         exe = replay_tool()
         with tempfile.NamedTemporaryFile('w', suffix='.json', delete=False) as f:
